@@ -80,6 +80,9 @@ def check_one(ctx, res, seed, st, samples, distinct):
                 keep.append(c)
         cases = keep
     r = S.membership(res, cases, "c01")
+    total, plain = S.theorem_scope(res)
+    st["corpus_definitions"] = st.get("corpus_definitions", 0) + total
+    st["definitions_inside_derive_layer_theorem"] = st.get("definitions_inside_derive_layer_theorem", 0) + plain
     bodies = S.bodies_ok(res)
     viol = []
     for (qi, text), rr in zip(cases, r):
